@@ -384,6 +384,56 @@ def old_session_auth():
         w.close()
 
 
+def forged_invalid_ke_downgrade(v):
+    """Proposal downgrade through the one unauthenticated answer the initiator acts upon: the attacker answers message 1 itself with N(INVALID_KE_PAYLOAD, g)
+    naming the WEAKER of the two groups both ends are configured with, and relays everything afterwards untouched.  Whenever both ends come up they must have
+    agreed on what they would have agreed on without the attacker (the retry repeats the full offer, RFC 7296 1.2 / 2.7, and the responder insists on its
+    choice); a handshake that fails is fine.  Both group orders, both authentication methods."""
+    import struct
+    n = 0
+
+    def group_of(sa):
+        return [t.id.value if hasattr(t.id, 'value') else int(t.id) for t in sa.chosen_proposal.transforms if int(getattr(t.type, 'value', t.type)) == 4]
+
+    for auth in ('psk', 'rsa'):
+        for groups, weak in ((['ecp521', 'ecp256'], 19), (['ecp256', 'modp2048'], 14), (['ecp521', 'ecp384', 'ecp256'], 19)):
+            want = None
+            for attack in (False, True):
+                w = wd.World(opts={'ike_dh': groups, 'auth': auth}, seed=common.SEED)
+                try:
+                    cur, at = bytes(w.acquire('A')), 'A'
+                    if attack:
+                        h = W.dec_header(cur)
+                        forged = W.enc_message({'spi_i': h['spi_i'], 'spi_r': b'\0' * 8, 'xchg': W.IKE_SA_INIT, 'response': True, 'initiator': False, 'mid': 0},
+                                               [{'t': W.NOTIFY, 'proto': 0, 'spi': b'', 'ntype': 17, 'data': struct.pack('>H', weak)}])
+                        cur = w.dispatch('A', forged, 'B')
+                        if cur is None:
+                            n += 1
+                            continue                     # the initiator does not follow the hint at all: nothing to downgrade
+                        cur = bytes(cur)
+                    while cur is not None:
+                        nxt = w.peer_of(at)
+                        cur, at = w.dispatch(nxt, cur, at), nxt
+                    up = {e: [x for x in w.sas(e) if x.state.name == 'ESTABLISHED'] for e in 'AB'}
+                    n += 1
+                    if not attack:
+                        if not (up['A'] and up['B']):
+                            raise common.MachineryError(f'the control handshake with groups {groups} ({auth}) did not complete')
+                        want = group_of(up['A'][0])
+                        continue
+                    if up['A'] and up['B']:
+                        got = (group_of(up['A'][0]), group_of(up['B'][0]))
+                        if got != (want, want):
+                            v.violation(f'forged INVALID_KE_PAYLOAD naming group {weak} in answer to message 1 ({auth}, configured groups {groups} on both ends): both ends '
+                                        f'come up on DH group {got[0]} / {got[1]}, without the attacker they agree on {want} - a downgrade that ends in establishment',
+                                        {'groups': groups, 'weak': weak, 'auth': auth}, signature={'component': 'downgrade:invalid-ke', 'auth': auth})
+                except wd.Escape as ex:
+                    v.violation(f'forged INVALID_KE_PAYLOAD downgrade ({auth}, {groups}): {ex}', {}, signature={'component': 'downgrade:escape'})
+                finally:
+                    w.close()
+    v.coverage['forged_invalid_ke_downgrade_runs'] = n
+
+
 def run(tier, replay=None):
     v = common.Verdict('C02', tier, 'model_checking')
     rnd = random.Random(common.SEED)
@@ -486,4 +536,5 @@ def run(tier, replay=None):
     v.assumptions += ['attacker capabilities: replace any field of messages 1/2 (own DH scalars, nonces), proxy SPIs, open / re-seal IKE_AUTH only with keys derived by an '
                       'independent key schedule from values it owns; meaning-preserving rewrites (observation O-1) are not part of the menu',
                       'ecp256 only for the substituted KE values']
+    forged_invalid_ke_downgrade(v)
     return v.finish()
